@@ -131,6 +131,7 @@ func KeyshareUserResponseRequest[T comparable](
 	userResponse := new(big.Int).Add(randomizers["secretkey"], new(big.Int).Mul(challenge, userSecret))
 
 	return KeyshareResponseRequest[T]{
+		Context:            context,
 		Nonce:              nonce,
 		UserResponse:       userResponse,
 		IsSignatureSession: signature,
@@ -157,9 +158,20 @@ func KeyshareResponse[T comparable](
 	keys map[T]*gabikeys.PublicKey,
 ) (*ProofP, error) {
 	// Sanity checks
+	if secret == nil || randomizer == nil || responseRequest.Nonce == nil || responseRequest.UserResponse == nil {
+		return nil, errors.New("incomplete keyshare response request")
+	}
 	for i, k := range responseRequest.UserChallengeInput {
 		if k.KeyID != nil && keys[*k.KeyID] == nil {
 			return nil, errors.Errorf("missing public key for element %d of challenge input", i)
+		}
+		if k.Value == nil || k.Commitment == nil {
+			return nil, errors.Errorf("element %d of challenge input is incomplete", i)
+		}
+		for _, c := range k.OtherCommitments {
+			if c == nil {
+				return nil, errors.Errorf("element %d of challenge input is incomplete", i)
+			}
 		}
 	}
 	if responseRequest.Context == nil {
